@@ -141,9 +141,10 @@ ECBytesOK(p) ==
 (* content class `fill`, parent "none" or a block name.  Shredding it with *)
 (* variant pv yields a codeword, described by the source record            *)
 (* [slice, pv, len]; codewords are referred to by an identifier, `cw` maps *)
-(* identifiers to source records (two identifiers = two different         *)
-(* codewords: another slice, other content or another variant).  The       *)
-(* leader's shred at position i of codeword w is ECShredOf(w, i).          *)
+(* identifiers to source records.  Two identifiers are two different       *)
+(* codewords (another slice, other content or another variant) and are     *)
+(* taken to differ in every shard.  The leader's shred at position i of    *)
+(* codeword w is ECShredOf(w, i).                                          *)
 ECShred(v, slice) ==
   LET L == ECCodedLen(v, slice.parent # "none", slice.n) IN
   IF ECRefused(L) THEN [ok |-> FALSE, err |-> "TooMuchData", shard |-> 0, len |-> L]
